@@ -236,11 +236,14 @@ impl Binder {
             table.all_columns().keys().cloned().collect_vec()
         } else {
             let mut ids = vec![];
-            for col in columns {
-                let col_name = col.value.to_lowercase();
+            for ident in columns {
+                let col_name = ident.value.to_lowercase();
                 let col = table.get_column_by_name(&col_name).ok_or_else(|| {
-                    ErrorKind::InvalidColumn(col_name.clone()).with_span(col.span)
+                    ErrorKind::InvalidColumn(col_name.clone()).with_span(ident.span)
                 })?;
+                if ids.contains(&col.id()) {
+                    return Err(ErrorKind::ColumnExists(col_name).with_span(ident.span));
+                }
                 ids.push(col.id());
             }
             ids
